@@ -259,6 +259,6 @@ def find_method(tree, cls, meth):
     for st in tree.body:
         if isinstance(st, ast.ClassDef) and st.name == cls:
             for m in st.body:
-                if isinstance(m, ast.FunctionDef) and m.name == meth:
+                if isinstance(m, (ast.FunctionDef, ast.AsyncFunctionDef)) and m.name == meth:
                     return m
     raise Untranslatable("untranslatable: method %s.%s not found" % (cls, meth))
